@@ -69,6 +69,24 @@ func runC05(c *runCfg) error {
 			}
 		}
 	}
+	// statement functions and parsers that return several errors joined into one (errors.Join): still ONE error —
+	// a single ErrorResponse, then the one ReadyForQuery; later statements of the query do not run
+	{
+		b := func(t string) *errT { return &errT{kind: "base", a: []byte(t)} }
+		joined := []*errT{{kind: "join", inner: b("first"), inner2: b("second")},
+			{kind: "join", inner: &errT{kind: "code", a: []byte("23505"), inner: b("dup")}, inner2: &errT{kind: "hint", a: []byte("h"), inner: b("other")}},
+			{kind: "code", a: []byte("22012"), inner: &errT{kind: "join", inner: b("x"), inner2: b("y")}},
+			{kind: "wrap", a: []byte("outer: "), inner: &errT{kind: "join", inner: b("x"), inner2: &errT{kind: "join", inner: b("y"), inner2: b("z")}}}}
+		for ji, e := range joined {
+			cols := textCols(1)
+			row := opT{kind: "row", vals: []valT{tv("r")}}
+			failing := stmtT{id: 50 + ji, cols: cols, prog: []opT{row}, ret: "err", rerr: e}
+			after := stmtT{id: 60 + ji, cols: cols, prog: []opT{row, {kind: "complete", tag: []byte("NEVER")}}, ret: "nil"}
+			cfg := cfgT{limit: 1024, auth: "none", term: "none", parse: []parseEntry{{query: []byte("q"), stmts: []stmtT{failing, after}}, {query: []byte("perr"), err: e}}}
+			emitSession(c, lockCase(id, "joined_errors", cfg, stdStartup, [][]byte{mQuery([]byte("q")), mQuery([]byte("perr")), mParse(nil, []byte("perr"), 0), mSync(), mQuery([]byte("q"))}))
+			id++
+		}
+	}
 	// exhaustive: every handler program of length <= L over the operation alphabet, two column layouts
 	type sym struct{ op opT }
 	alpha := func(cols []colT) []opT {
